@@ -98,3 +98,10 @@ def write_json(path, obj):
         json.dump(obj, f, indent=1, sort_keys=False)
         f.write('\n')
     os.replace(tmp, path)
+
+
+def load_known():
+    p = os.path.join(VERIF, 'known_findings.json')
+    if os.path.exists(p):
+        return json.load(open(p))
+    return {'findings': [], 'fixed': []}
